@@ -173,6 +173,52 @@ def install(it):
                 return it.call(f, pre + list(b), k)
             return B('partial', call)
         m.ns['partial'] = B('functools.partial', partial)
+        m.ns['WRAPPER_ASSIGNMENTS'] = ('__module__', '__name__',
+                                       '__qualname__', '__doc__')
+
+        def update_wrapper(it, a, kw):
+            wrapper, wrapped = a[0], a[1]
+            for n in ('__module__', '__name__', '__qualname__', '__doc__'):
+                try:
+                    it.setattr(wrapper, n, it.getattr(wrapped, n))
+                except PyRaise:
+                    pass
+            it.setattr(wrapper, '__wrapped__', wrapped)
+            return wrapper
+        m.ns['update_wrapper'] = B('functools.update_wrapper',
+                                   update_wrapper)
+        return m
+
+    # ---------------- contextlib
+    @module('contextlib')
+    def _contextlib(it):
+        m = I.ModuleVal('contextlib')
+
+        def contextmanager(it, a, kw):
+            f = a[0]
+            if not isinstance(f, I.FuncVal):
+                raise Unsupported('contextmanager on %r' % (f,))
+            f.is_contextmanager = True
+            f.is_generator = False      # calls are intercepted below
+
+            def make(it, b, kw2):
+                return I.GeneratorCM(f, list(b), dict(kw2))
+            w = B('contextmanager:' + f.qualname, make)
+            w.wrapped = f
+            return w
+        m.ns['contextmanager'] = B('contextlib.contextmanager',
+                                   contextmanager)
+        return m
+
+    # ---------------- traceback
+    @module('traceback')
+    def _traceback(it):
+        m = I.ModuleVal('traceback')
+        m.ns['format_exception'] = B(
+            'traceback.format_exception',
+            lambda it, a, kw: [OpaqueStr('traceback', tuple(a))])
+        m.ns['format_exc'] = B('traceback.format_exc',
+                               lambda it, a, kw: OpaqueStr('traceback', ()))
         return m
 
     # ---------------- operator
